@@ -1,6 +1,6 @@
 -- Action-tape harness: every coroutine body and the main chunk run the same
 -- loop; the host function choose() hands out the next action of the history.
-local co, started = {}, {}
+local co, started, called, created = {}, {}, {}, {}
 local loop
 local function mkbody(X)
   return function(...)
@@ -14,17 +14,27 @@ local function st(X)
   if c == nil then return "none" end
   if type(c) == "thread" then return coroutine.status(c) end
   local th = started[X]
-  if th == nil then return "unstarted" end
+  if th == nil then
+    -- a wrapped coroutine that was called but never reached its body: a quota
+    -- kill struck either just before the call (it is still unstarted) or in
+    -- its very first step (it is dead); the program cannot tell
+    if called[X] then return "unstarted-or-dead" end
+    return "unstarted"
+  end
   return coroutine.status(th)
 end
 function FINAL()
   emit("final", st("A"), st("B"), st("C"))
-  local n = 0
+  local n, lost = 0, 0
   for _, X in ipairs{"A", "B", "C"} do
     local s = st(X)
-    if s ~= "none" and s ~= "dead" then n = n + 1 end
+    if s == "unstarted-or-dead" then lost = lost + 1
+    elseif s ~= "none" and s ~= "dead" then n = n + 1 end
+    -- a create/wrap action that was interrupted by a quota kill before the
+    -- program got hold of the coroutine: the program lost it
+    if s == "none" and created[X] then lost = lost + 1 end
   end
-  return n
+  return n, lost
 end
 loop = function(me)
   while true do
@@ -32,14 +42,18 @@ loop = function(me)
     if op == "stop" then
       return "stop"
     elseif op == "create" then
+      created[X] = true
       co[X] = coroutine.create(mkbody(X))
     elseif op == "wrap" then
+      created[X] = true
       co[X] = coroutine.wrap(mkbody(X))
     elseif op == "resume" then
       emit("resume", me, X, coroutine.resume(co[X], v, v + 1))
     elseif op == "call" then
+      called[X] = true
       emit("call", me, X, co[X](v, v + 1))
     elseif op == "pcallcall" then
+      called[X] = true
       emit("pcallcall", me, X, pcall(co[X], v))
     elseif op == "yield" then
       emit("yield", me, coroutine.yield(v, v + 1))
